@@ -196,8 +196,23 @@ impl<T: ServiceStateActions + Send> ServiceManager<T> {
                     if self.verbosity != VerbosityLevel::Minimal {
                         println!("Attempting to stop {}...", name);
                     }
-                    self.service_control
-                        .stop(&name, self.service.is_user_mode())?;
+                    if let Err(err) = self
+                        .service_control
+                        .stop(&name, self.service.is_user_mode())
+                    {
+                        // The service manager can report a failure although the process has gone
+                        // (for example a timeout after the kill). Record the stop in that case, so
+                        // that the registry does not keep a RUNNING entry with the PID of a dead
+                        // process; the error is still returned.
+                        if self
+                            .service_control
+                            .get_process_pid(&self.service.bin_path())
+                            .is_err()
+                        {
+                            self.service.on_stop().await?;
+                        }
+                        return Err(err.into());
+                    }
                     if self.verbosity != VerbosityLevel::Minimal {
                         println!(
                             "{} Service {} with PID {} was stopped",
